@@ -88,6 +88,15 @@ CLAIMS["C07"] = (
     "the documented codes. That each function returns the documented substring is not decided.",
     "provenance (def-use back-slice) analysis of slice bounds + constant/comparison-kind checks")
 
+CLAIMS["C06"] = (
+    "decides the structural clauses: fetch and store map every suffix and DEFtype to the same "
+    "type with the right defaults; array keys only come from the bound-checked builder with both "
+    "SUBSCRIPT OUT OF RANGE guards, the negative guard and the auto-dimension 10; redimension and "
+    "erase guards and their separator agreement; SWAP's reject path restores both operands; "
+    "defaults are removed not stored; the DEFtype purge keys on the right characters. Injectivity "
+    "of the string key encoding is not decided.",
+    "table extraction by path condition + guard dominance + def-use order checks on MIR")
+
 NOT_APPLICABLE = {}
 
 
